@@ -140,6 +140,13 @@ class Ctx:
             p = fn.get("resolved") or fn["path"]
             if NOUNWIND.match(fn["path"]):
                 return False
+            # slice primitives that panic only when their own index precondition fails: that is the function's internal
+            # arithmetic (DESIGN 2.4, decided elsewhere or declined), not a point where caller code or a rejected call unwinds
+            if re.match(r"^core::slice::<impl \[T\]>::(rotate_left|rotate_right|swap|reverse|split_at|split_at_mut|swap_with_slice|copy_within|chunks|chunks_mut|iter|iter_mut)$", fn["path"]):
+                return False
+            if fn["path"] in ("core::ops::Index::index", "core::ops::IndexMut::index_mut") and re.match(r"^(alloc::vec::Vec<|\[)", norm_ty(fn.get("self_ty") or "")) \
+                    and re.search(r"(usize|core::ops::Range\w*<usize>|core::ops::RangeFull)$", norm_ty((fn.get("args") or [""])[-1])):
+                return False
             ga0 = norm_ty(fn.get("self_ty") or " ".join(fn.get("args", [])))
             if fn.get("trait") in ("core::iter::Iterator", "core::iter::IntoIterator", "core::iter::DoubleEndedIterator", "core::iter::ExactSizeIterator") \
                     and fn["name"] in ("next", "next_back", "len", "size_hint", "into_iter", "rev") \
